@@ -79,7 +79,7 @@ TMutate ==
      /\ Check("mutate: every optimizer group uses the agent's current learning rate", \A o \in Opts : v.lrok[o])
      /\ Check("mutate: targets have the architecture of the network they shadow", ShadowArch(v))
      /\ Check("mutate: targets have the weights of the network they shadow right after the mutation",
-              \A n \in Nets : Shape.shadow[n] # 0 => (v.w[n] = v.w[Shape.shadow[n]] \/ (k = "none" /\ v.w[n] = p.w[n])))
+              \A n \in Nets : Shape.shadow[n] # 0 => v.w[n] = v.w[Shape.shadow[n]])
      /\ Check("mutate: all networks trained alongside the policy receive the architecture change", k \in {"arch", "act"} => ArchAllOrNone(p, v))
      /\ Check("mutate: networks with the same layer configuration before the mutation have the same one afterwards (same change as the policy)", SameChange(p, v))
      /\ Check("mutate: hyperparameters change only for kind hp, and exactly one of them",
@@ -98,7 +98,7 @@ TMutPop ==
   /\ Ev.op = "mutpop" /\ Common(Live)
   /\ Check("the population keeps its size and order", Ev.order_ok)
   /\ Check("the agents can still act", Ev.can_act)
-  /\ \A s \in Live : LET p == slots[s]  v == V(s)  k == Ev.k  h == Ev.hs[s] IN
+  /\ \A s \in Live : LET p == slots[s]  v == V(s)  k == (IF "ks" \in DOMAIN Ev THEN Ev.ks[s] ELSE Ev.k)  h == Ev.hs[s] IN
        /\ Check("mutate: every optimizer steps exactly the current parameters of its networks", \A o \in Opts : v.coherent[o])
        /\ Check("mutate: every optimizer group uses the agent's current learning rate", \A o \in Opts : v.lrok[o])
        /\ Check("mutate: targets follow the network they shadow", ShadowArch(v))
